@@ -642,9 +642,13 @@ fn directed_prelude(ty: &str, rng: &mut Rng) -> Option<(u64, Vec<Vec<u64>>)> {
                 vec![K_EDIT, ra, 0, 0, 1, m0, 0],        // A: update k0                       (op 0)
                 vec![K_DELIVER, rc, nodup, 0],
                 vec![K_EDIT, ra, 0, 0, 1, m1, 0],        // A: update k0 again                 (op 1)
+                vec![K_SPAWN, 0, ra],                    // D := snapshot of A (both updates, no remove)
                 vec![K_EDIT, rc, 0, 5],                  // C: rm k0 (saw only op 0)           (op 2)
                 vec![K_DELIVER, ra, nodup, 0],           // A gets the remove
                 vec![K_DELIVER, rc, nodup, 0],           // C gets the second update
+                vec![K_LAWS, 3, ra, rc],
+                vec![K_MERGE, 3, ra],                    // D <- A: equal entry clocks, different values
+                vec![K_MERGE, rb, rc],
             ]),
         }),
         "list" => Some((0, vec![
